@@ -39,31 +39,42 @@ def design(ctx):
 
 # ---------------------------------------------------------------------------------------------------------------
 def sanitizer_key(err):
-    """stable signature of a sanitizer report: kind + first asmjit source location"""
+    """stable signature of a sanitizer report: kind + first asmjit source location outside the generic helpers
+    (asmjit/support/*); the location is the file plus a digest of the source line (line numbers move with every edit),
+    or the function name when the frame carries no line."""
     lines = (err or "").splitlines()
     kind = "crash"
     for ln in lines:
         m = re.search(r"ERROR: AddressSanitizer: (\S+)", ln)
         if m:
             kind = m.group(1); break
-        m = re.search(r"runtime error: ([a-z ]+?)(?: \d| -|:|$)", ln)
+        m = re.search(r"runtime error: ([a-z -]+?)(?= of type| -?\d|:|'|$)", ln)
         if m:
             kind = m.group(1).strip().replace(" ", "-"); break
         if "LeakSanitizer" in ln:
             kind = "leak"; break
     loc = "?"
     for ln in lines:
-        m = re.search(r"(asmjit/[a-z0-9_/]+\.(?:cpp|h)):(\d+)", ln)
-        if m and "asmjit-testing" not in ln:
-            # line numbers move with every edit of the file: the signature is the file plus a digest of the source line
+        m = re.search(r"(asmjit/[a-z0-9_/]+\.(?:cpp|h))(?::(\d+))?", ln)
+        if not m or "asmjit-testing" in ln:
+            continue
+        path, line = m.group(1), m.group(2)
+        here = None
+        if line:
             try:
-                src = open(os.path.join(os.environ.get("VERIF_REPO", "/repo"), m.group(1)), errors="replace").read().splitlines()[int(m.group(2)) - 1]
-                loc = f"{m.group(1)}#{vlib.hashlib.sha1(' '.join(src.split()).encode()).hexdigest()[:8]}"
+                src = open(os.path.join(os.environ.get("VERIF_REPO", "/repo"), path), errors="replace").read().splitlines()[int(line) - 1]
+                here = f"{path}#{vlib.hashlib.sha1(' '.join(src.split()).encode()).hexdigest()[:8]}"
             except Exception:
-                loc = f"{m.group(1)}:{m.group(2)}"
-            # prefer the first frame that is not the generic bit helper
-            if "support/support.h" not in m.group(1):
-                break
+                here = f"{path}:{line}"
+        else:
+            fm = re.search(r" in (?:asmjit::v1_21::)?([\w:~]+)", ln)
+            here = f"{path}@{fm.group(1) if fm else '?'}"
+        if path.startswith("asmjit/support/"):      # bit helpers, Span, bit vectors: keep looking for the caller
+            if loc == "?":
+                loc = here
+            continue
+        loc = here
+        break
     return f"ub:{kind}:{loc}"
 
 
@@ -160,7 +171,7 @@ def classify(x, aborts_by_xi):
     if asp == "abort":
         ab = aborts_by_xi.get(head.get("xi"))
         key = ab["key"] if ab else "ub:unknown"
-        if head.get("mode") in ("lblmem32", "lbloff64", "mem16off"):      # executions that generate nothing but one trigger:
+        if head.get("mode") in ("lblmem32", "lbloff64", "mem16off"):  # (regsize/deadjump keep the report location: it is stable)      # executions that generate nothing but one trigger:
             key = "ub:" + head["mode"]                                      # the report location varies with the garbage read
         msg = f"{who} {ev.get('in', '')[:260]} :: {ab['summary'] if ab else 'process died'}"
         return key, msg
@@ -202,6 +213,9 @@ def shards_for(ctx):
     add("x86", "asm", "mem16off", 3, 20, max_aborts=3)
     add("a64", "asm", "a64elem", 3, 100, max_aborts=3)
     add("a64", "compiler", "a64elem", 3, 60, max_aborts=3)
+    for arch in ("x86", "x64"):
+        add(arch, "compiler", "regsize", 3, 4, max_aborts=3)
+        add(arch, "compiler", "deadjump", 3, 4, max_aborts=3)
     return S
 
 
@@ -258,7 +272,7 @@ def run(ctx):
         "AArch64: operand kinds of every form are kept (typed API); x86: strict validation (kValidateAssembler/kValidateIntermediate) is on in every execution",
         "ASan+UBSan (allocator_may_return_null=1) is the environment: a report ends the process, the ABORT line is not a contract event; the harness resumes with the next execution",
         "Builder/Compiler finalize is its own call with the reporting discipline only (partial output of earlier nodes is by design)",
-        "isolated triggers (x86-32 [label] with invalid id; x86-64 [label+disp] with disp near INT32_MIN; 16-bit addressing with disp outside 0..32767; AArch64 vector element-type perturbation, element-index perturbation under the Compiler; detached emitters) are generated only in dedicated executions so that one open defect does not end every execution",
+        "isolated triggers (x86-32 [label] with invalid id; x86-64 [label+disp] with disp near INT32_MIN; 16-bit addressing with disp outside 0..32767; x86 Compiler register operands with a size field > 64; a valid Compiler program with a dead block jumping into live code; AArch64 vector element-type perturbation, element-index perturbation under the Compiler; detached emitters) are generated only in dedicated executions so that one open defect does not end every execution",
         "whether an accepted instruction is CORRECT is C01/C02; here an Ok emit only has to append 1..15 bytes (x86) / 4 bytes (a64) and nothing else",
     ]
     vlib.write_evidence(ctx, "model_checking",
